@@ -34,13 +34,17 @@ def stepped_docs(rng, n):
     stride = rng.choice([2, 2, 3])
     runlen = rng.choice([3, 4, 6, 8])
     levels = [rng.choice([1, 1, 2, 3, 4]) for _ in range(n // runlen + 2)]
+    if rng.random() < 0.5:
+        # good runs and poor runs in turn (what makes a top-N search skip: the good ones set the threshold)
+        levels = [rng.choice([2, 3, 4]) if j % 2 == 0 else 1 for j in range(n // runlen + 2)]
     docs = {}
     for i in range(n):
         tf = levels[i // runlen]
         body = [[1]] * tf
         if i % stride == 0:
             body = body + [[2]] * levels[(i // runlen + 1) % len(levels)]
-        if rng.random() < 0.2:
+        # a sparse third term, preferably on the first document of a run (where a better block begins)
+        if rng.random() < (0.6 if i % runlen == 0 else 0.15):
             body = body + [[1, 2]]
         docs["k%02d" % i] = {"t": {"body": body, "title": [[1]] if rng.random() < 0.5 else []}, "n": {}, "b4": 4}
     return docs
@@ -60,13 +64,19 @@ def stepped_query(rng):
         return {"op": "term", "f": "body", "t": [c], "b4": rng.choice([4, 4, 8])}
     a, b = (t(1), t(2)) if rng.random() < 0.5 else (t(2), t(1))
     c = {"op": "term", "f": rng.choice(["body", "title"]), "t": rng.choice([[1], [1, 2]]), "b4": 4}
-    form = rng.choice(["and", "and", "and3", "andmaybe", "andmaybe", "andmaybe-or", "or", "andor", "dismax"])
+    form = rng.choice(["and", "and", "and3", "andmaybe", "andmaybe", "andmaybe-or", "or", "andor", "dismax",
+                       "andnot-and", "andnot-and", "andnot"])
     if form == "and":
         return {"op": "and", "kids": [a, b], "b4": 4}
     if form == "and3":
         return {"op": "and", "kids": [a, b, c], "b4": 4}
     if form == "andmaybe":
         return {"op": "andmaybe", "a": a, "b": b}
+    if form == "andnot-and":
+        # (the excluded term is the sparse one: it takes single documents out of the conjunction's blocks)
+        return {"op": "andnot", "a": {"op": "and", "kids": [a, b], "b4": 4}, "b": c}
+    if form == "andnot":
+        return {"op": "andnot", "a": a, "b": b if rng.random() < 0.5 else c}
     if form == "andmaybe-or":
         return {"op": "andmaybe", "a": {"op": "or", "kids": [a, c], "b4": 4}, "b": b}
     if form == "or":
@@ -109,6 +119,14 @@ def check(run):
         c11.judge_traces(run, "C12", trs, meta, "c12-stepped-" + mode)
         c11.NOTIMPL.clear()
         run.extra["quality_events"] += sum(1 for t in trs for e in t if e["ev"] in ("quality", "blockscan", "skipq", "replace"))
+    # ... and, on the same kind of lists, skip_to_quality for every threshold (each distinct score, the midpoints,
+    # below and above) from a fresh matcher after 0-3 steps
+    trs, meta, cases = c11.collect(run, rng, 4 if quick else 30, 10 if quick else 16, "exact", thresholds, quality=True,
+                                   ndocs=(12, 30), docgen=stepped_docs, qgen=stepped_query, plangen=stepped_plan,
+                                   blocklimits=(1, 2, 3, 4), sweep=True)
+    c11.judge_traces(run, "C12", trs, meta, "c12-sweep")
+    c11.NOTIMPL.clear()
+    run.extra["quality_events"] += sum(1 for t in trs for e in t if e["ev"] in ("quality", "blockscan", "skipq", "replace"))
     if not run.extra.get("quality_events"):
         run.machinery("vacuity: no quality event recorded")
 
